@@ -97,7 +97,9 @@ def targets():
             ("frozenset", frozenset, "array", False), ("deque", collections.deque, "array", False), ("dict", dict, "object", False),
             ("date", datetime.date, "temporal", True), ("datetime", datetime.datetime, "temporal", True), ("time", datetime.time, "temporal", True),
             ("timedelta", datetime.timedelta, "temporal", True), ("UUID", uuid.UUID, "", True), ("Color", Color, "", True), ("MyInt", MyInt, "number", True),
-            ("Tuple2", T2, "array", False), ("Schema", Sc, "object", False), ("SchemaT", Sc, "", True)]
+            ("Tuple2", T2, "array", False), ("Schema", Sc, "object", False), ("SchemaT", Sc, "", True),
+            # the same data class as a conversion target, the caller's options marked override=True (they then govern the class's own parse)
+            ("SchemaTO", Sc, "", True)]
 
 
 def cell(x, tname, T, tgroup, tscalar):
@@ -114,6 +116,8 @@ def cell(x, tname, T, tgroup, tscalar):
                 if tname == "Schema":
                     # the flags are the data class's own options (a nested data class always parses under its class options)
                     v = T.__from__(x, options=Options(no_explicit_cast=ne, no_data_loss=ndl))
+                elif tname == "SchemaTO":
+                    v = type_transform(x, T, options=Options(no_explicit_cast=ne, no_data_loss=ndl, override=True))
                 else:
                     v = type_transform(x, T, options=Options(no_explicit_cast=ne, no_data_loss=ndl))
             outs.append({"ok": True, "v": alpha(v), "exc": []})
